@@ -288,3 +288,9 @@ package nsx
 //vc:func checkConfigValidity
 //vc:  invariant[C04,C20] 3 "for _, g := range c.Groups" @groupsSoFarHaveOneExpression forall k int :: { c.Groups[k] } 0 <= k && k <= rangeindex ==> len(c.Groups[k].Expression) == 1
 //vc:  ensures[C04,C20] @acceptedGroupsHaveOneExpression result == nil ==> (forall k int :: { c.Groups[k] } 0 <= k && k < len(c.Groups) ==> len(c.Groups[k].Expression) == 1)
+
+// MarshalJSON of a service entry (used to compare device and target services
+// and to build the request bodies): an ICMP entry carries its type if it has
+// one and its code if it has one - independently of each other.
+//vc:func (*nsxServiceEntry).MarshalJSON
+//vc:  assert[C04] at "return json.Marshal(result)" @icmpTypeAndCodeBothCarried old(e.ResourceType) == "ICMPTypeServiceEntry" ==> (("icmp_code" in result) == (e.ICMPCode != nil)) && (("icmp_type" in result) == (e.ICMPType != nil))
